@@ -200,7 +200,11 @@ inline void after_c02(Env& e)
       const void* hit = memmem(m, n, &a, sizeof a);
       if (hit) {
         violation("application-address-found-verbatim-in-sandbox-memory", mon::fmt("&canary_target[%d] = %p is stored at sandbox offset %zu", k, (void*)a, (size_t)(static_cast<const unsigned char*>(hit) - m)));
-        memset(const_cast<void*>(hit), 0, sizeof a);
+        // wipe every copy so that later forms are not blamed for it
+        for (int kk = 0; kk < 4; kk++) {
+          uintptr_t aa = reinterpret_cast<uintptr_t>(&canary_target[kk]);
+          while (const void* h2 = memmem(m, n, &aa, sizeof aa)) memset(const_cast<void*>(h2), 0, sizeof aa);
+        }
         return;
       }
     }
